@@ -29,7 +29,14 @@ func profMergeCrash(en *Env) {
 		}
 		cfg.Sync = "no"
 		cfg.BPS = 0
-		mergeCrashTrace(en, cfg, stats)
+		big := t%4 == 1
+		if big {
+			// keys of 9 000-40 000 bytes under the index types that keep the key slice they are given: the hint file of
+			// the merge spans several blocks
+			cfg.Index = []string{"btree", "skiplist"}[(t/4)%2]
+			cfg.Limit = 70000
+		}
+		mergeCrashTrace(en, cfg, stats, big)
 	}
 	for t := 0; t < 2*en.Scale; t++ {
 		halfBatchTrace(en, h.IndexTypes[t%3], stats)
@@ -38,12 +45,16 @@ func profMergeCrash(en *Env) {
 	en.Summary["stats"] = stats
 }
 
-func mergeCrashTrace(en *Env, cfg h.Cfg, stats map[string]int) {
+func mergeCrashTrace(en *Env, cfg h.Cfg, stats map[string]int, bigKeys bool) {
 	r := en.R
 	nkeys := 2 + r.Intn(4)
 	dir := en.FreshDir()
 	defer en.Drop(dir)
 	u := h.SimpleKeys(nkeys, 5+r.Intn(6))
+	if bigKeys {
+		nkeys = 5 + r.Intn(2)
+		u = mergeKeys(en, nkeys, true)
+	}
 	vs := h.NewValues()
 	e := h.NewEng(dir, en.Work+"/scratch", cfg, u, vs, en.T)
 	en.T.Emit(h.Ev{"ev": "reset", "n": nkeys, "seed": en.Seed, "prof": "mergecrash", "cfg": cfg.Ev()})
@@ -94,6 +105,11 @@ func mergeCrashTrace(en *Env, cfg h.Cfg, stats map[string]int) {
 			c.MaxImages = 0
 			e.Merge()
 			write(2 + r.Intn(6))
+		}
+		if bigKeys {
+			for k := 1; k <= nkeys && !e.Dead; k++ { // every long key is live at the merge
+				e.Put(k, val())
+			}
 		}
 		c.MaxImages = 150 * (rd + 1)
 		e.Merge()
